@@ -46,28 +46,44 @@ VARIANTS = [  # name, family, tag, port, refused blocks, es firmware, group form
 ]
 
 
-def inv_spec(variant, prior_hex: str) -> dict:
+def group_addr(variant, k: int) -> tuple[int, int]:
+    """(first register, register count) of eco-mode group k = 1..4: the groups follow each other."""
+    glen = 6 if variant[6] == "v2" else 4
+    return variant[7] + (k - 1) * glen, glen
+
+
+def inv_spec(variant, prior_hex: str, others_hex: str | None = None) -> dict:
     name, fam, tag, port, refused, fw, fmt, g1 = variant
     serial = serial_for(tag) if fam == "ET" else "95048ESU000W0000"
     regs = device_regs(fam, serial, 10000)
     b = bytes.fromhex(prior_hex)
     for i in range(len(b) // 2):
         regs[g1 + i] = int.from_bytes(b[2 * i:2 * i + 2], "big")
+    if others_hex:
+        ob = bytes.fromhex(others_hex)
+        for k in (2, 3, 4):
+            a, n = group_addr(variant, k)
+            for i in range(min(n, len(ob) // 2)):
+                regs[a + i] = int.from_bytes(ob[2 * i:2 * i + 2], "big")
     sim = {"regs": regs, "refused": [list(ET_BLOCKS[n]) for n in refused]}
     if fam == "ES":
         sim["aa55"] = {"info": list(es_info(serial, fw))}
     return {"family": fam, "port": port, "sim": sim, "retries": 0}
 
 
-def mode_program(variant, prior: str, prior_hex: str, mode: int, power: int, soc: int) -> dict:
+def mode_program(variant, prior: str, prior_hex: str, mode: int, power: int, soc: int, others: str = "zeros") -> dict:
     fam = variant[1]
     calls = [{"api": "read_device_info"}, {"api": "get_operation_modes", "args": [True]},
              {"api": "set_operation_mode", "args": [{"opmode": mode}, power, soc]},
              {"api": "get_operation_mode"}, {"api": "read_setting", "args": ["eco_mode_1"]}]
     if fam == "ET":
         calls += [{"api": "read_setting", "args": [f"eco_mode_{k}_switch"]} for k in (2, 3, 4)]
-    return {"inv": [inv_spec(variant, prior_hex)], "calls": calls,
-            "case": {"variant": variant[0], "prior": prior, "mode": mode, "power": power, "soc": soc, "fmt": variant[6]}}
+    # the content of the other groups afterwards, taken from the simulated inverter itself (not through the library's tables)
+    calls += [{"api": "sim:read", "args": list(group_addr(variant, k))} for k in (2, 3, 4)]
+    pri = V2_PRIORS if variant[6] == "v2" else V1_PRIORS
+    return {"inv": [inv_spec(variant, prior_hex, pri.get(others))], "calls": calls,
+            "case": {"variant": variant[0], "prior": prior, "others": others, "mode": mode, "power": power, "soc": soc,
+                     "fmt": variant[6]}}
 
 
 def limit_program(variant, what: str, value: int) -> dict:
@@ -112,8 +128,11 @@ def run_mode_program(prog: dict) -> dict:
     if len(rets) > 4 and rets[4].get("ok"):
         g = rets[4]["val"]
         c["g1"] = {"k": g["k"], "a": g["a"], "s": g["s"]}
+    c["raw"] = []
     for r in rets[5:]:
-        if r.get("ok"):
+        if r.get("api") == "sim:read":
+            c["raw"].append(r["val"]["b"])
+        elif r.get("ok"):
             x = r["val"]
             c["sw"].append({"k": x["k"], "a": x["a"], "s": x["s"]})
         else:
@@ -143,7 +162,7 @@ def enc_cases() -> list[dict]:
 
 
 CASE_DEFAULT = {"kind": "", "fmt": "v2", "charge": False, "power": 0, "soc": 0, "bytes": [], "mode": 0, "setok": False,
-                "getok": False, "got": -1, "g1": ABSENT, "sw": [], "v2": True, "value": 0}
+                "getok": False, "got": -1, "g1": ABSENT, "sw": [], "raw": [], "v2": True, "value": 0}
 
 
 def judge(run: Run, cases: list[dict], batch: int = 8000) -> list[list[str]]:
@@ -196,7 +215,9 @@ def check(prop: str, tier: str, seed: int) -> int:
                 if quick and prior not in ("zeros", "charge247", "garbage", "unset", "charge247_745", "peak") and mode in (98, 99):
                     gg = grid[:2]
                 for p, s in gg:
-                    progs.append(mode_program(variant, prior, hx, mode, p, s))
+                    # the other three groups start empty, as enabled 24/7 groups, or as another enabled schedule
+                    others = ("zeros", "charge247", "discharge247" if variant[6] != "v2" else "peak")[len(progs) % 3]
+                    progs.append(mode_program(variant, prior, hx, mode, p, s, others))
     if not quick:
         v = VARIANTS[0]
         for p in range(1, 101):
@@ -226,7 +247,7 @@ def check(prop: str, tier: str, seed: int) -> int:
             if clause.startswith("INFO."):
                 run.cov["families"][clause] = run.cov["families"].get(clause, 0) + 1
                 continue
-            detail = {k: c[k] for k in ("variant", "prior", "mode", "what", "fmt") if k in c}
+            detail = {k: c[k] for k in ("variant", "prior", "others", "mode", "what", "fmt") if k in c}
             if c["kind"] == "mode":
                 detail["got"] = c["got"]
                 detail["getexc"] = c.get("getexc", "")
